@@ -20,6 +20,9 @@ ASSUMPTIONS = [
 VERSIONS = ["1.0", "1.5", "2.0", "2.5", "3.0"]
 
 
+SOURCE_DIR_NAMES = ["helper", "backtest", "latest", "contest", "attest", "greatest", "foo", "src", "testing", "protest"]
+
+
 class StackStream(Stream):
     name = "stacks"
     quick_n = 300
@@ -37,7 +40,11 @@ class StackStream(Stream):
             return sorted(rng.sample(VERSIONS, rng.choice([0, 1, 1, 2, 3])))
         case = {
             "solutions": [{"version": rng.choice(VERSIONS), "has": rng.random() < 0.8} for _ in range(rng.choice([0, 0, 1, 1, 2]))],
-            "sources": [{"version": rng.choice(VERSIONS), "has": rng.random() < 0.7} for _ in range(rng.choice([0, 0, 1, 2]))],
+            # where in its tree the source project lives: a directory of its own, the tree's root, or a directory below
+            # another project (a workspace) - under names of all sorts that are not test directories
+            "sources": [{"version": rng.choice(VERSIONS), "has": rng.random() < 0.7,
+                         "place": rng.choice(["proj", "proj", ".", "workspace/" + rng.choice(SOURCE_DIR_NAMES), "deep/er/" + rng.choice(SOURCE_DIR_NAMES)])}
+                        for _ in range(rng.choice([0, 0, 1, 2]))],
             "findlinks": [{"versions": vers()} for _ in range(rng.choice([0, 1, 1, 2, 3]))],
             "indexes": [{"versions": vers()} for _ in range(rng.choice([0, 1, 1, 2]))],
             "extras": [{"versions": vers()} for _ in range(rng.choice([0, 0, 1, 2]))],
@@ -68,7 +75,10 @@ class StackStream(Stream):
         for i, s in enumerate(case["sources"]):
             p = os.path.join(d, "src%d" % i)
             os.makedirs(p)
-            B.write_source_project(os.path.join(p, "proj"), "foo" if s["has"] else "bar", s["version"])
+            place = s.get("place", "proj")
+            if place.startswith("workspace/"):
+                B.write_source_project(os.path.join(p, "workspace"), "ws", "0.1")
+            B.write_source_project(os.path.normpath(os.path.join(p, place)), "foo" if s["has"] else "bar", s["version"])
             srcs.append(p)
         for i, s in enumerate(case["findlinks"]):
             p = os.path.join(d, "links%d" % i)
